@@ -486,7 +486,7 @@ impl Exec {
         }
     }
 
-    fn bump(&mut self, k: &str) {
+    pub fn bump(&mut self, k: &str) {
         *self.stats.entry(k.to_string()).or_insert(0) += 1;
     }
 
@@ -1060,7 +1060,9 @@ impl Exec {
     /// how a produced handle is printed (call after it has been pushed to `env`)
     fn show_handle(&self, r: Ref) -> String {
         if self.abs {
-            let k = self.env.iter().position(|&x| x == r).unwrap_or(self.env.len());
+            // the first *live* named handle equal to it (a dead handle's bits may coincide with anything
+            // once its cell is reused — which cell that is depends on the allocation order, not on functions)
+            let k = (0..self.env.len()).find(|&i| self.env[i] == r && self.live.get(i).copied().unwrap_or(true)).unwrap_or(self.env.len());
             format!("{} =h{}", self.canon(r, &mut vec![], 0), k)
         } else {
             show_ref(r)
@@ -1437,7 +1439,14 @@ impl Exec {
         macro_rules! hh {
             ($t:expr) => {
                 match self.h($t) {
-                    Some(i) => i,
+                    Some(i) => {
+                        // a name whose node a collection has freed: the request is meaningless (a generator
+                        // defect, reported in the statistics so that it cannot go unnoticed)
+                        if !self.live.get(i).copied().unwrap_or(true) && self.env[i].index() != 0 {
+                            self.bump("stale-handle-use");
+                        }
+                        i
+                    }
                     None => return "bad-op".into(),
                 }
             };
@@ -1672,7 +1681,8 @@ impl Exec {
                                 continue;
                             }
                         };
-                        hs[slot] = self.env[hh!(t.strip_prefix('h').unwrap_or(""))];
+                        let hi_ = hh!(t.strip_prefix('h').unwrap_or(""));
+                        hs[slot] = self.env[hi_];
                     }
                     Some((k, hs))
                 } else {
